@@ -5,7 +5,7 @@ from .. import world as W
 
 ID = "C05"
 LEVEL = "exploration"
-RUNS = {"quick": 5000, "thorough": 60000}
+RUNS = {"quick": 7000, "thorough": 60000}
 RULE = ("seeded histories of thread state and affinity events (OAs/OAr incl. remote moves of paused, cooling and warming "
         "threads, across processes) with more threads than CPUs over 1-3 looms; 30% carry an injected oversubscription or other "
         "illegal move; distinct = hash of the action list; non-trivial = at least one affinity change and two threads "
